@@ -2240,6 +2240,7 @@ class op(object):
             for v in self.variables():
                 if not self._variables[v]['i'] and not \
                     self._variables[v]['e']: del self._variables[v]
+                else: self._variables[v]['o'] = False
 
             object.__setattr__(self,'objective',value)
 
@@ -2311,10 +2312,11 @@ class op(object):
                 self._equalities.remove(c)
                 for v in c.variables():
                     self._variables[v]['e'].remove(c)
-            if not self._variables[v]['o'] and \
-                not self._variables[v]['i'] and \
-                not self._variables[v]['e']:
-                del self._variables[v]
+            for v in c.variables():
+                if not self._variables[v]['o'] and \
+                    not self._variables[v]['i'] and \
+                    not self._variables[v]['e']:
+                    del self._variables[v]
 
         except ValueError:  # c is not a constraint
            pass
